@@ -43,7 +43,7 @@ PROPS = {
         "note": "affine records with infinity=true and junk coordinates encode like the identity (hypothesis kept visible in the theorems)",
     },
     "C06": {
-        "modules": ["PP.Props.C06"], "level": "proof", "technique": "Lean 4 proof by composition (C13, C14, C15, C16, C17) + differential correspondence against python RFC pipeline",
+        "modules": ["PP.Props.C06", "PP.Props.HashLen"], "level": "proof", "technique": "Lean 4 proof by composition (C13, C14, C15, C16, C17) + differential correspondence against python RFC pipeline",
         "text": "hash_to_curve / encode_to_curve = hash_to_field (RFC 9380 section 5, C13) followed by the map of C14, for any expander meeting C13; subgroup clause under the curve-order hypotheses of C17." + DIFF,
         "note": "RFC text/vectors unavailable offline; isogeny additivity (C16) and curve orders are explicit hypotheses/test-only",
         "partial": ["subgroup membership conditional on curve-order hypotheses", "iso coefficients tied to RFC by structural theorems + repo KATs"],
@@ -82,7 +82,7 @@ PROPS = {
         "note": "none beyond the trusted base",
     },
     "C13": {
-        "modules": ["PP.Props.C13"], "level": "proof", "technique": "Lean 4 proof (model = literal RFC 9380 section 5 transcription, for every hash) + differential correspondence incl. the Lean SHA-2/SHAKE",
+        "modules": ["PP.Props.C13", "PP.Props.HashLen"], "level": "proof", "technique": "Lean 4 proof (model = literal RFC 9380 section 5 transcription, for every hash) + differential correspondence incl. the Lean SHA-2/SHAKE",
         "text": "expand_message_xmd (any hash), expand_message_xof and hash_to_field (Fq, Fr, Fq2, any count) equal a literal transcription of RFC 9380 5.2/5.3 for all inputs with |dst| <= 255, len <= 65535; abort iff more than 255 blocks; from_okm = OS2IP mod p (unwraps cannot fire)." + DIFF,
         "note": "the hash function is a parameter of the theorems; sha2/sha3 crates are validated differentially against PP/Spec/Hash.lean and python hashlib",
     },
